@@ -168,7 +168,11 @@ func (v *Violation) Error() string { return v.Class + ": " + v.Msg }
 
 // Violationf builds a Violation.
 func Violationf(class, format string, args ...interface{}) *Violation {
-	return &Violation{Class: class, Msg: fmt.Sprintf(format, args...)}
+	msg := fmt.Sprintf(format, args...)
+	if len(msg) > 6000 {
+		msg = msg[:3000] + fmt.Sprintf(" ... [%d bytes left out] ... ", len(msg)-6000) + msg[len(msg)-3000:]
+	}
+	return &Violation{Class: class, Msg: msg}
 }
 
 var failSeq int64
